@@ -784,12 +784,7 @@ func vfC17TieNextStart(s *vfutil.Session, r *vfutil.Rand) {
 	tg := vfdoubles.NewTarget()
 	st.Seed(tg)
 	seed := tg.LogCopy()
-	t1, t2 := vfdoubles.Replay(seed, 0), vfdoubles.Replay(seed, 0)
-	real, _ := vfC17RealStart(t1, config.CheckpointKey, ids)
-	if strings.HasPrefix(real, "err") {
-		real = "err"
-	}
-	copyRes := checkpoint.VfNextStart(t2, config.CheckpointKey, ids)
+	tg.CloseAll()
 	dump := func(t *vfdoubles.Target) string { // the modification times written now differ between the two runs
 		st := checkpoint.VfDumpState(t)
 		for i := range st.Items {
@@ -801,13 +796,34 @@ func vfC17TieNextStart(s *vfutil.Session, r *vfutil.Rand) {
 		}
 		return st.Encode()
 	}
-	d1, d2 := dump(t1), dump(t2)
-	tg.CloseAll()
-	t1.CloseAll()
-	t2.CloseAll()
+	norm := func(p string) string { // offset -1 is the placeholder of a new key: no position, whatever database it was read in
+		if strings.HasPrefix(p, "err") {
+			return "err"
+		}
+		if strings.HasPrefix(p, "-") {
+			return "none"
+		}
+		return p
+	}
+	// With equal offsets in two databases (or none readable) the result depends on the iteration order of a Go
+	// map (getDbMap), which differs between two runs: a mismatch counts only if it persists over repeated runs.
+	var real, copyRes string
+	same := false
+	for try := 0; try < 8 && !same; try++ {
+		t1, t2 := vfdoubles.Replay(seed, 0), vfdoubles.Replay(seed, 0)
+		real, _ = vfC17RealStart(t1, config.CheckpointKey, ids)
+		copyRes = checkpoint.VfNextStart(t2, config.CheckpointKey, ids)
+		real, copyRes = norm(real), norm(copyRes)
+		same = real == copyRes && dump(t1) == dump(t2)
+		t1.CloseAll()
+		t2.CloseAll()
+		if !same {
+			s.Count("tie_next_start_retries")
+		}
+	}
 	s.Count("tie_next_start")
-	if real != copyRes || d1 != d2 {
-		s.Violate("harness-next-start-differs", fmt.Sprintf("syncer.updateCheckpoint + RedisOutput.StartPoint read %s, the harness transcription VfNextStart reads %s (states equal: %v)", real, copyRes, d1 == d2),
+	if !same {
+		s.Violate("harness-next-start-differs", fmt.Sprintf("syncer.updateCheckpoint + RedisOutput.StartPoint read %s, the harness transcription VfNextStart reads %s (8 runs, never the same result and state)", real, copyRes),
 			map[string]interface{}{"state": st.Encode(), "ids": ids})
 	}
 }
